@@ -327,6 +327,55 @@ func TestFixedScenarios(t *testing.T) {
 			"s1.p":   {gen.NCall("probe", gen.NStr("s1"), id("k1")), gen.NIf([]*gen.Node{gen.NBool(true)}, [][]*gen.Node{{gen.NCall("exit")}}, nil, false), gen.NCall("probe", gen.NStr("never"))},
 		}),
 	}
+	// caller and callee decode the same document from the shared point: each has a document of its own
+	for _, doc := range []string{"{\"n\": 0, \"l\": [1, 2]}", "[1, [2, 3]]"} {
+		first := gen.NStr("n")
+		if doc[0] == '[' {
+			first = gen.NInt(0)
+		}
+		lj := func() *gen.Node { return gen.NSet("d", gen.NCall("load_json", id("_"))) }
+		wr := func(v int64) *gen.Node { return gen.NAssign("=", []*gen.Node{gen.NIndex(id("d"), first.Clone())}, []*gen.Node{gen.NInt(v)}) }
+		for order := 0; order < 2; order++ {
+			mainBody := []*gen.Node{lj(), wr(100), gen.NCall("use", gen.NStr("s1.p")), gen.NCall("probe", gen.NStr("caller"), id("d"))}
+			if order == 1 {
+				mainBody = []*gen.Node{lj(), gen.NCall("use", gen.NStr("s1.p")), gen.NCall("probe", gen.NStr("caller"), id("d")), gen.NCall("use", gen.NStr("s1.p"))}
+			}
+			cs := mk(map[string][]*gen.Node{
+				"main.p": mainBody,
+				"s1.p":   {lj(), gen.NCall("probe", gen.NStr("callee-sees"), id("d")), wr(200), gen.NCall("use", gen.NStr("s2.p"))},
+				"s2.p":   {lj(), gen.NCall("probe", gen.NStr("deep-sees"), id("d")), wr(300)},
+			})
+			cs.Fields = map[string]any{"message": doc, "k1": int64(1)}
+			cases = append(cases, cs)
+		}
+	}
+	// scripts that consist of nothing but one use() call - aliases - between a caller and a callee that fails, exits or succeeds
+	for _, bottom := range [][]*gen.Node{
+		{gen.NCall("probe", gen.NStr("bottom")), gen.NCall("perr")},
+		{gen.NCall("probe", gen.NStr("bottom")), gen.NSet("zz", gen.NBin("+", gen.NInt(1), gen.NStr("x")))},
+		{gen.NCall("probe", gen.NStr("bottom")), gen.NCall("exit"), gen.NCall("probe", gen.NStr("never"))},
+		{gen.NCall("add_key", id("k1"), gen.NInt(5))},
+	} {
+		for aliases := 1; aliases <= 3; aliases++ {
+			scripts := map[string][]*gen.Node{"main.p": {gen.NSet("v", gen.NInt(1)), gen.NCall("probe", gen.NStr("before")), gen.NCall("use", gen.NStr("al1.p")), probeAll("caller-after")}}
+			for a := 1; a <= aliases; a++ {
+				next := fmt.Sprintf("al%d.p", a+1)
+				if a == aliases {
+					next = "bottom.p"
+				}
+				scripts[fmt.Sprintf("al%d.p", a)] = []*gen.Node{gen.NCall("use", gen.NStr(next))}
+			}
+			scripts["bottom.p"] = gen.CloneProg(bottom)
+			cases = append(cases, mk(scripts))
+			// the alias inside a block, and an alias that also holds a comment-like empty statement list around the call
+			s2 := map[string][]*gen.Node{}
+			for k, v := range scripts {
+				s2[k] = gen.CloneProg(v)
+			}
+			s2["al1.p"] = []*gen.Node{gen.NIf([]*gen.Node{gen.NBool(true)}, [][]*gen.Node{{gen.NCall("use", gen.NStr(map[bool]string{true: "bottom.p", false: "al2.p"}[aliases == 1]))}}, nil, false)}
+			cases = append(cases, mk(s2))
+		}
+	}
 	for i, c := range cases {
 		judge(t, "fixed", c, fmt.Sprint("fixed/", i), true, "fixed")
 	}
